@@ -408,7 +408,16 @@ def doc_scalars(c):
         out.add((tag, text))
         out.add((ld.resolve(yaml.ScalarNode, text, (True, False)), text))
     ld.dispose()
-    return {(t, v) for t, v in out if t not in (TAG + 'str', TAG + 'null')}
+    res = {(t, v) for t, v in out if t not in (TAG + 'str', TAG + 'null')}
+    import pathlib
+    for _, text in sc:
+        if isinstance(text, str):
+            try:
+                if str(pathlib.Path(text)) != text:
+                    res.add(('!Path', text))
+            except Exception:      # noqa
+                pass
+    return res
 
 
 def case_term(c, with_calls=True):
